@@ -97,7 +97,7 @@ ARCHETYPES = {
 }
 
 
-def scenario(arch, short=True, rate=False, extra_opts=(), world_kw=None):
+def scenario(arch, short=True, rate=False, extra_opts=(), world_kw=None, via_targets_file=False):
     """-> callable(faults) -> Result"""
     a = ARCHETYPES[arch]
 
@@ -112,7 +112,7 @@ def scenario(arch, short=True, rate=False, extra_opts=(), world_kw=None):
         srv = a['make'](short)
         if not rate:
             opts.append('--skip-rate-test')
-        res = H.audit(srv, opts=opts, faults=faults, world_kw=world_kw)
+        res = H.audit(srv, opts=opts, faults=faults, world_kw=world_kw, via_targets_file=via_targets_file)
         res.peer = srv
         return res
     return run
@@ -162,6 +162,14 @@ def judge_c09(res, arch, plan):
     if res.clock > bound:
         probs.append(('too-slow:%s' % _site_sig(plan_t, w), 'virtual time %.1fs > %.1fs for %d connections' % (res.clock, bound, nconn)))
     rep = report.TextReport(res.stdout)
+    if arch == 'E2':
+        # a peer that answers every connection with the version-mismatch text never completes a handshake: whatever else goes wrong,
+        # no algorithm report and status 1
+        if rep.has_alg_report():
+            probs.append(('fooled:%s' % (_site_sig(plan_t, w) or 'no-fault'), 'status %s' % res.status))
+        elif res.status != 1:
+            probs.append(('no-report-but-status-%s:%s' % (res.status, _site_sig(plan_t, w) or 'no-fault'), res.stdout[-300:]))
+        return probs
     init = initial_conns(arch)
     touched_init = [(k, f) for k, f in plan_t if k[1] < init]
     hard_init = [(k, f) for k, f in touched_init if f[0] not in BENIGN]
